@@ -111,7 +111,7 @@ Proof.
   intros Hin Hm. unfold ign_match. apply existsb_exists. exists r. split; [exact Hin | exact Hm].
 Qed.
 
-(* patterns whose language is "a fixed text, then anything on the line" *)
+(* patterns whose language is "a fixed text, then anything" *)
 Lemma bm_prefix_only r lit t :
   (forall s, lang r s -> exists rest, s = lit ++ rest) ->
   boundary_match r true t = true ->
@@ -124,12 +124,12 @@ Proof.
 Qed.
 
 Lemma bm_prefix_if r lit :
-  (forall rest, ~ In c_nl rest -> lang r (lit ++ rest)) ->
-  forall a rest, ~ In c_nl rest -> (a = [] \/ last a x00 = c_slash) ->
+  (forall rest, lang r (lit ++ rest)) ->
+  forall a rest, (a = [] \/ last a x00 = c_slash) ->
   boundary_match r true (a ++ lit ++ rest) = true.
 Proof.
-  intros Hr a rest Hnl Ha. apply boundary_match_spec.
-  exists a, (lit ++ rest). split; [reflexivity|]. split; [apply Hr; exact Hnl|].
+  intros Hr a rest Ha. apply boundary_match_spec.
+  exists a, (lit ++ rest). split; [reflexivity|]. split; [apply Hr|].
   apply bnd_last_iff. exact Ha.
 Qed.
 
@@ -179,7 +179,7 @@ Proof.
 Qed.
 
 Lemma dir_line_regex_inert : forall l,
-  forallb is_inert l = true -> dir_line_regex l = Some (lit_then l (RStar RAnyNoNL)).
+  forallb is_inert l = true -> dir_line_regex l = Some (lit_then l (RStar RAny)).
 Proof.
   induction l as [|c l IH]; intros H; cbn [dir_line_regex lit_then]; [reflexivity|].
   cbn [forallb] in H. apply andb_true_iff in H. destruct H as [Hc Hl].
@@ -194,7 +194,11 @@ Proof.
   rewrite (IH Hl), (is_inert_not_star c Hc), (is_inert_not_dot c Hc), Hc. reflexivity.
 Qed.
 
-(* which lines are "directory lines" *)
+(* which lines are "directory lines".  [directoryRegexp] is NOT one of the
+   patterns compiled with (?s): its '.' keeps Go's default meaning, hence the
+   newline condition on the text before the '/'.  It is applied to a LINE of
+   .goitignore, which never contains '\n' ([scan_lines]); below it is only
+   used on inert names ([inert_no_nl]). *)
 Lemma dir_search_true a b :
   ~ In c_nl a -> re_search re_directoryRegexp (a ++ c_slash :: b) = true.
 Proof.
@@ -220,7 +224,7 @@ Qed.
 (* the regex of a directory entry "text/" *)
 Lemma ign_line_dir name :
   forallb is_inert name = true ->
-  ign_line (name ++ [c_slash]) = Some (lit_then (name ++ [c_slash]) (RStar RAnyNoNL)).
+  ign_line (name ++ [c_slash]) = Some (lit_then (name ++ [c_slash]) (RStar RAny)).
 Proof.
   intros Hn. unfold ign_line. rewrite (dir_search_true name [] (inert_no_nl _ Hn)).
   apply dir_line_regex_inert. rewrite forallb_app, Hn. reflexivity.
@@ -230,7 +234,7 @@ Qed.
 Lemma ign_line_ext ext :
   inert_comp ext ->
   ign_line ([x2a; x2e] ++ ext) =
-  Some (RCat (RStar RAnyNoNL) (RCat (RChar x2e) (lit_then ext REps))).
+  Some (RCat (RStar RAny) (RCat (RChar x2e) (lit_then ext REps))).
 Proof.
   intros [Hi Hns]. unfold ign_line. rewrite dir_search_false.
   - cbn [app file_line_regex]. rewrite (file_line_regex_inert ext Hi). reflexivity.
@@ -240,28 +244,28 @@ Qed.
 (* ---------- 2a. the built-in pattern ---------- *)
 
 Lemma lang_builtin s :
-  lang ign_builtin s <-> exists rest, s = str ".goit/" ++ rest /\ ~ In c_nl rest.
+  lang ign_builtin s <-> exists rest, s = str ".goit/" ++ rest.
 Proof.
   unfold ign_builtin. rewrite lang_RCat. split.
-  - intros [s1 [s2 [E [H1 H2]]]]. apply lang_RLit in H1. apply lang_star_nonl in H2.
-    subst s s1. exists s2. split; [reflexivity | exact H2].
-  - intros [rest [E Hnl]]. exists (str ".goit/"), rest. split; [exact E|].
-    split; [apply lang_RLit; reflexivity | apply lang_star_nonl; exact Hnl].
+  - intros [s1 [s2 [E [H1 _]]]]. apply lang_RLit in H1.
+    subst s s1. exists s2. reflexivity.
+  - intros [rest E]. exists (str ".goit/"), rest. split; [exact E|].
+    split; [apply lang_RLit; reflexivity | apply lang_RAny_star].
 Qed.
 
 Theorem builtin_excludes_at : forall a rest,
-  ~ In c_nl rest -> (a = [] \/ last a x00 = c_slash) ->
+  (a = [] \/ last a x00 = c_slash) ->
   ign_match [ign_builtin] (a ++ str ".goit/" ++ rest) = true.
 Proof.
-  intros a rest Hnl Ha. rewrite ign_match_single.
-  apply (bm_prefix_if ign_builtin (str ".goit/")); [|exact Hnl | exact Ha].
-  intros rest' Hnl'. apply lang_builtin. exists rest'. split; [reflexivity | exact Hnl'].
+  intros a rest Ha. rewrite ign_match_single.
+  apply (bm_prefix_if ign_builtin (str ".goit/")); [|exact Ha].
+  intros rest'. apply lang_builtin. exists rest'. reflexivity.
 Qed.
 
 Theorem builtin_excludes : forall rest,
-  ~ In c_nl rest -> ign_match [ign_builtin] (str ".goit/" ++ rest) = true.
+  ign_match [ign_builtin] (str ".goit/" ++ rest) = true.
 Proof.
-  intros rest Hnl. apply (builtin_excludes_at [] rest Hnl). left. reflexivity.
+  intros rest. apply (builtin_excludes_at [] rest). left. reflexivity.
 Qed.
 
 Theorem builtin_only : forall t,
@@ -270,7 +274,7 @@ Theorem builtin_only : forall t,
 Proof.
   intros t Hm. rewrite ign_match_single in Hm.
   apply (bm_prefix_only ign_builtin (str ".goit/") t); [|exact Hm].
-  intros s Hl. apply lang_builtin in Hl. destruct Hl as [rest [E _]]. exists rest. exact E.
+  intros s Hl. apply lang_builtin in Hl. exact Hl.
 Qed.
 
 Example builtin_not_x_goit : ign_match [ign_builtin] (str "x.goit/f") = false.
@@ -282,10 +286,10 @@ Proof. vm_compute. reflexivity. Qed.
 Example builtin_nested_goit : ign_match [ign_builtin] (str "sub/.goit/x") = true.
 Proof. vm_compute. reflexivity. Qed.
 
-(* the side condition of [builtin_excludes] matters: Go's '.' does not match a
-   newline and `$` only matches at the very end *)
-Example builtin_newline_escapes :
-  ign_match [ign_builtin] (str ".goit/a" ++ [c_nl] ++ str "b") = false.
+(* [builtin_excludes] has no side condition: the pattern is compiled with the
+   `s` flag, so '.' matches a newline too (without the flag this name escaped) *)
+Example builtin_newline_no_longer_escapes :
+  ign_match [ign_builtin] (str ".goit/a" ++ [c_nl] ++ str "b") = true.
 Proof. vm_compute. reflexivity. Qed.
 
 (* ---------- 2b. directory entries ---------- *)
@@ -294,14 +298,13 @@ Proof. vm_compute. reflexivity. Qed.
 Theorem dir_entry_spec_gen : forall name r t,
   forallb is_inert name = true ->
   ign_line (name ++ [c_slash]) = Some r ->
-  ~ In c_nl t ->
   (boundary_match r true t = true <->
    exists a rest, t = a ++ name ++ [c_slash] ++ rest /\ (a = [] \/ last a x00 = c_slash)).
 Proof.
-  intros name r t Hn Hr Hnl. rewrite (ign_line_dir name Hn) in Hr. injection Hr as Hr. subst r.
+  intros name r t Hn Hr. rewrite (ign_line_dir name Hn) in Hr. injection Hr as Hr. subst r.
   split.
   - intros Hm.
-    assert (Hp : forall s, lang (lit_then (name ++ [c_slash]) (RStar RAnyNoNL)) s ->
+    assert (Hp : forall s, lang (lit_then (name ++ [c_slash]) (RStar RAny)) s ->
                            exists rest, s = (name ++ [c_slash]) ++ rest).
     { intros s Hl. apply lang_lit_then in Hl. destruct Hl as [s' [E _]]. exists s'. exact E. }
     destruct (bm_prefix_only _ _ t Hp Hm) as [a [rest [E Ha]]].
@@ -309,16 +312,14 @@ Proof.
   - intros [a [rest [E Ha]]]. subst t.
     replace (a ++ name ++ [c_slash] ++ rest) with (a ++ (name ++ [c_slash]) ++ rest)
       by (rewrite <- (app_assoc name); reflexivity).
-    apply bm_prefix_if; [| |exact Ha].
-    + intros rest' Hnl'. apply lang_lit_then. exists rest'. split; [reflexivity|].
-      apply lang_star_nonl. exact Hnl'.
-    + apply not_in_app_r in Hnl. apply not_in_app_r in Hnl. apply not_in_app_r in Hnl. exact Hnl.
+    apply bm_prefix_if; [|exact Ha].
+    intros rest'. apply lang_lit_then. exists rest'. split; [reflexivity|].
+    apply lang_RAny_star.
 Qed.
 
 Theorem dir_entry_spec : forall name r t,
   inert_comp name ->
   ign_line (name ++ [c_slash]) = Some r ->
-  ~ In c_nl t ->
   (boundary_match r true t = true <->
    exists a rest, t = a ++ name ++ [c_slash] ++ rest /\ (a = [] \/ last a x00 = c_slash)).
 Proof. intros name r t [Hn _]. apply dir_entry_spec_gen. exact Hn. Qed.
@@ -328,26 +329,25 @@ Proof. intros name r t [Hn _]. apply dir_entry_spec_gen. exact Hn. Qed.
 Theorem ext_entry_spec : forall ext r t,
   inert_comp ext ->
   ign_line ([x2a; x2e] ++ ext) = Some r ->
-  ~ In c_nl t ->
   (boundary_match r true t = true <-> exists stem, t = stem ++ [x2e] ++ ext).
 Proof.
-  intros ext r t He Hr Hnl. rewrite (ign_line_ext ext He) in Hr. injection Hr as Hr. subst r.
-  assert (Hlang : forall s, lang (RCat (RStar RAnyNoNL) (RCat (RChar x2e) (lit_then ext REps))) s <->
-                            exists s1, s = s1 ++ [x2e] ++ ext /\ ~ In c_nl s1).
+  intros ext r t He Hr. rewrite (ign_line_ext ext He) in Hr. injection Hr as Hr. subst r.
+  assert (Hlang : forall s, lang (RCat (RStar RAny) (RCat (RChar x2e) (lit_then ext REps))) s <->
+                            exists s1, s = s1 ++ [x2e] ++ ext).
   { intros s. rewrite lang_RCat. split.
-    - intros [s1 [s2 [E [H1 H2]]]]. apply lang_star_nonl in H1. apply lang_RCat in H2.
+    - intros [s1 [s2 [E [_ H2]]]]. apply lang_RCat in H2.
       destruct H2 as [s3 [s4 [E2 [H3 H4]]]]. apply lang_RChar in H3. apply lang_lit_then in H4.
       destruct H4 as [s5 [E4 H5]]. apply lang_REps in H5. subst s5. rewrite app_nil_r in E4.
-      subst s s2 s3 s4. exists s1. split; [reflexivity | exact H1].
-    - intros [s1 [E H1]]. exists s1, ([x2e] ++ ext). split; [exact E|].
-      split; [apply lang_star_nonl; exact H1|]. apply lang_RCat. exists [x2e], ext.
+      subst s s2 s3 s4. exists s1. reflexivity.
+    - intros [s1 E]. exists s1, ([x2e] ++ ext). split; [exact E|].
+      split; [apply lang_RAny_star|]. apply lang_RCat. exists [x2e], ext.
       split; [reflexivity|]. split; [apply lang_RChar; reflexivity|].
       apply lang_lit_then. exists []. split; [rewrite app_nil_r; reflexivity | apply lang_REps; reflexivity]. }
   rewrite boundary_match_spec. split.
-  - intros [pre [suf [E [Hl _]]]]. apply Hlang in Hl. destruct Hl as [s1 [Es _]].
+  - intros [pre [suf [E [Hl _]]]]. apply Hlang in Hl. destruct Hl as [s1 Es].
     exists (pre ++ s1). rewrite E, Es, <- app_assoc. reflexivity.
   - intros [stem E]. exists [], t. split; [reflexivity|]. split; [|left; reflexivity].
-    apply Hlang. exists stem. split; [exact E|]. subst t. apply not_in_app_l in Hnl. exact Hnl.
+    apply Hlang. exists stem. exact E.
 Qed.
 
 (* ====================================================================== *)
@@ -476,22 +476,20 @@ Proof. intros HF. eapply Forall_impl; [|exact HF]. intros d [_ H]. exact H. Qed.
 Theorem dir_entry_under_named : forall ds r p,
   ds <> [] -> Forall inert_comp ds ->
   ign_line (join [c_slash] ds ++ [c_slash]) = Some r ->
-  ~ In c_nl p ->
   (boundary_match r true p = true <-> under_named ds p).
 Proof.
-  intros ds r p Hne HF Hr Hnl.
-  rewrite (dir_entry_spec_gen _ r p (join_inert ds HF) Hr Hnl).
+  intros ds r p Hne HF Hr.
+  rewrite (dir_entry_spec_gen _ r p (join_inert ds HF) Hr).
   rewrite (under_named_iff ds p Hne (Forall_inert_noslash ds HF)). reflexivity.
 Qed.
 
 Corollary dir_entry_under_named1 : forall name r p,
   inert_comp name ->
   ign_line (name ++ [c_slash]) = Some r ->
-  ~ In c_nl p ->
   (boundary_match r true p = true <-> under_named [name] p).
 Proof.
-  intros name r p Hn Hr Hnl.
-  apply (dir_entry_under_named [name] r p); [discriminate | | exact Hr | exact Hnl].
+  intros name r p Hn Hr.
+  apply (dir_entry_under_named [name] r p); [discriminate | | exact Hr].
   apply Forall_cons; [exact Hn | apply Forall_nil].
 Qed.
 
@@ -513,16 +511,12 @@ Proof.
 Qed.
 
 Theorem builtin_under_named_iff : forall t,
-  ~ In c_nl t ->
-  (ign_match [ign_builtin] t = true <-> under_named [str ".goit"] t).
+  ign_match [ign_builtin] t = true <-> under_named [str ".goit"] t.
 Proof.
-  intros t Hnl. split; [apply builtin_under_named|].
+  intros t. split; [apply builtin_under_named|].
   intros Hu. apply (under_named_iff [str ".goit"] t) in Hu; [|discriminate|].
   - destruct Hu as [a [rest [E Ha]]]. subst t.
-    apply (builtin_excludes_at a rest); [|exact Ha].
-    apply not_in_app_r in Hnl.
-    change (join [c_slash] [str ".goit"] ++ [c_slash] ++ rest) with (str ".goit/" ++ rest) in Hnl.
-    apply not_in_app_r in Hnl. exact Hnl.
+    exact (builtin_excludes_at a rest Ha).
   - exact goit_noslash.
 Qed.
 
@@ -560,10 +554,9 @@ Qed.
 Theorem ext_entry_has_ext : forall ext r p,
   inert_comp ext ->
   ign_line ([x2a; x2e] ++ ext) = Some r ->
-  ~ In c_nl p ->
   (boundary_match r true p = true <-> has_ext ([x2e] ++ ext) p).
 Proof.
-  intros ext r p He Hr Hnl. rewrite (ext_entry_spec ext r p He Hr Hnl).
+  intros ext r p He Hr. rewrite (ext_entry_spec ext r p He Hr).
   rewrite has_ext_iff; [reflexivity|].
   cbn [app]. intros [E | Hin]; [discriminate E | exact (proj2 He Hin)].
 Qed.
@@ -730,45 +723,43 @@ Proof. intros w pats f Hs. unfold ignored. rewrite Hs. reflexivity. Qed.
 
 (* anything below .goit/ is ignored whatever the disk looks like *)
 Theorem ignored_goit : forall w pats rest,
-  In ign_builtin pats -> ~ In c_nl rest ->
+  In ign_builtin pats ->
   ignored w pats (str ".goit/" ++ rest) = true.
 Proof.
-  intros w pats rest Hin Hnl.
+  intros w pats rest Hin.
   assert (H1 : ign_match pats (str ".goit/" ++ rest) = true).
   { apply (ign_match_In pats ign_builtin _ Hin). rewrite <- ign_match_single.
-    apply builtin_excludes. exact Hnl. }
+    apply builtin_excludes. }
   assert (H2 : ign_match pats ((str ".goit/" ++ rest) ++ [c_slash]) = true).
   { apply (ign_match_In pats ign_builtin _ Hin). rewrite <- ign_match_single, <- app_assoc.
-    apply builtin_excludes. apply not_in_app; [exact Hnl|].
-    intros [E | E]; [discriminate E | exact E]. }
+    apply builtin_excludes. }
   destruct (ignored_cases w pats (str ".goit/" ++ rest)) as [E | E]; rewrite E; assumption.
 Qed.
 
 (* ... and the same at any depth ("sub/.goit/x") *)
 Theorem ignored_goit_at : forall w pats a rest,
-  In ign_builtin pats -> ~ In c_nl rest -> (a = [] \/ last a x00 = c_slash) ->
+  In ign_builtin pats -> (a = [] \/ last a x00 = c_slash) ->
   ignored w pats (a ++ str ".goit/" ++ rest) = true.
 Proof.
-  intros w pats a rest Hin Hnl Ha.
+  intros w pats a rest Hin Ha.
   assert (H1 : ign_match pats (a ++ str ".goit/" ++ rest) = true).
   { apply (ign_match_In pats ign_builtin _ Hin). rewrite <- ign_match_single.
-    apply builtin_excludes_at; [exact Hnl | exact Ha]. }
+    apply builtin_excludes_at. exact Ha. }
   assert (H2 : ign_match pats ((a ++ str ".goit/" ++ rest) ++ [c_slash]) = true).
   { apply (ign_match_In pats ign_builtin _ Hin). rewrite <- ign_match_single.
     rewrite <- app_assoc, <- app_assoc.
-    apply builtin_excludes_at; [|exact Ha]. apply not_in_app; [exact Hnl|].
-    intros [E | E]; [discriminate E | exact E]. }
+    apply builtin_excludes_at. exact Ha. }
   destruct (ignored_cases w pats (a ++ str ".goit/" ++ rest)) as [E | E]; rewrite E; assumption.
 Qed.
 
 (* so `add .` (or any directory argument) can never stage a path under .goit/,
    for every pattern list [load_ctx] can produce *)
 Theorem add_never_stages_goit : forall c file w tr fl rest,
-  ign_load file = Some (x_pats c) -> ~ In c_nl rest ->
+  ign_load file = Some (x_pats c) ->
   add_dir_body c (str ".goit/" ++ rest) (mkMS w tr fl) = (Ok tt, mkMS w tr fl).
 Proof.
-  intros c file w tr fl rest Hload Hnl. unfold add_dir_body.
-  apply add_body_ignored. apply ignored_goit; [|exact Hnl].
+  intros c file w tr fl rest Hload. unfold add_dir_body.
+  apply add_body_ignored. apply ignored_goit.
   exact (ign_load_builtin file _ Hload).
 Qed.
 
@@ -926,8 +917,8 @@ Definition ex_match (t : bytes) : option bool :=
 Example ex_loads :
   ign_load (Some ex_file) =
   Some [ign_builtin;
-        lit_then (str "out/") (RStar RAnyNoNL);
-        RCat (RStar RAnyNoNL) (RCat (RChar x2e) (lit_then (str "log") REps))].
+        lit_then (str "out/") (RStar RAny);
+        RCat (RStar RAny) (RCat (RChar x2e) (lit_then (str "log") REps))].
 Proof. vm_compute. reflexivity. Qed.
 
 Example ex_matched :
@@ -953,6 +944,14 @@ Example dot_in_dir_entry_is_any :
   end = (true, true).
 Proof. vm_compute. reflexivity. Qed.
 
+(* ... any character at all: with the `s` flag also a newline *)
+Example dot_in_dir_entry_matches_newline :
+  match ign_line (str "a.b/") with
+  | Some r => boundary_match r true (str "a" ++ [c_nl] ++ str "b/f")
+  | None => false
+  end = true.
+Proof. vm_compute. reflexivity. Qed.
+
 Example dot_in_file_entry_is_literal :
   match ign_line (str "*.log") with
   | Some r => (boundary_match r true (str "a.log"), boundary_match r true (str "axlog"))
@@ -960,9 +959,22 @@ Example dot_in_file_entry_is_literal :
   end = (true, false).
 Proof. vm_compute. reflexivity. Qed.
 
-(* a name containing a newline escapes every pattern: Go's '.' excludes \n *)
-Example newline_escapes_ext :
-  ex_match (str "a" ++ [c_nl] ++ str ".log") = Some false.
+(* a name containing a newline does not escape: with the `s` flag '.' matches \n *)
+Example newline_no_longer_escapes_ext :
+  map ex_match [str "a" ++ [c_nl] ++ str ".log"; str "out/a" ++ [c_nl] ++ str "b";
+                str ".goit/a" ++ [c_nl] ++ str "b"]
+  = [Some true; Some true; Some true].
+Proof. vm_compute. reflexivity. Qed.
+
+(* the one place where a newline still matters is not a path but the file
+   .goitignore itself: it is split into lines, so no entry contains '\n' and a
+   name such as "a\nb/" can only be excluded through another entry *)
+Example entries_are_lines :
+  ign_load (Some (str "a" ++ [c_nl] ++ str "b/" ++ [c_nl])) =
+  match ign_line (str "a"), ign_line (str "b/") with
+  | Some r1, Some r2 => Some [ign_builtin; r1; r2]
+  | _, _ => None
+  end.
 Proof. vm_compute. reflexivity. Qed.
 
 (* the single entries on their own *)
